@@ -56,6 +56,11 @@ add('KF-proxy-method-on-rebuilt-proxy', ['C20'],
     {'scenario': 'proxy_returning_method_on_rebuilt_proxy'},
     'a method registered with method_to_typeid called on an unpickled/child proxy (whose _manager is None) raises AttributeError in the #PROXY branch of _callmethod after the server already created the result, which then stays in the server without any proxy')
 
+add('KF-forkserver-concurrent-poll', ['C19'],
+    ['exitcode_corrupted_by_concurrent_poll', 'poll_raised_during_concurrent_join'],
+    {'method': 'forkserver', 'phase': 'concurrent_pollers'},
+    'forkserver Popen.poll is not safe against several parent threads polling one Process: two threads see the sentinel readable, one reads the status, the other gets EOF and overwrites returncode with 255 (even after a successful join); a concurrent is_alive()/exitcode can raise ValueError on the closed sentinel (same code as CPython)')
+
 fixed = json.load(open(here + '/known_fixed.json')) if os.path.exists(here + '/known_fixed.json') else []
 json.dump({'findings': F, 'fixed': fixed}, open(here + '/known_findings.json', 'w'), indent=1)
 print(len(F), 'finding keys;', len(fixed), 'fixed entries')
